@@ -370,6 +370,20 @@ func checkC04(a *checkArgs, r *Result) error {
 				jobs = append(jobs, job{b, mutant{fmt.Sprintf("delete@%d", off), del, false}})
 			}
 		}
+		// deletions of a whole tail at structural offsets (stream header, block header, block boundaries, index, footer)
+		if l, ok := layoutOf(s, cs); ok {
+			cuts := map[int]bool{12: true, 13: true, l.index: true, l.index + 1: true, l.footer: true, l.footer - 1: true, len(s) - 1: true}
+			for _, blk := range l.blocks {
+				for _, o := range []int{blk.hdr, blk.hdr + 1, blk.hdr + blk.hdrLen, blk.dataEnd, blk.checkEnd, blk.checkEnd + 1, blk.checkEnd - 1} {
+					cuts[o] = true
+				}
+			}
+			for o := range cuts {
+				if o > 0 && o < len(s) {
+					jobs = append(jobs, job{b, mutant{fmt.Sprintf("cut@%d", o), append([]byte{}, s[:o]...), false}})
+				}
+			}
+		}
 		for k := 0; k < 3; k++ {
 			for _, m := range structuralMutants(rng, s, cs, len(b.Content)) {
 				jobs = append(jobs, job{b, m})
